@@ -171,6 +171,10 @@ def settings_snapshot():
         for attr in ('default_variables', 'default_functions', 'default_suffixes', 'default_comparer'):
             if attr in vars(c):
                 snap['%s.%s' % (c.__qualname__, attr)] = fp(vars(c)[attr])
+    for c in classes + [MathArray]:
+        for attr, v in vars(c).items():
+            if isinstance(v, (dict, list, set)) and not attr.startswith('__'):
+                snap.setdefault('%s.%s' % (c.__qualname__, attr), fp(v))
     snap['MathArray._negative_powers'] = fp(MathArray._negative_powers)
     snap['MathArray._default_negative_powers'] = fp(MathArray._default_negative_powers)
     snap['np.geterr'] = fp(np.geterr())
@@ -1001,7 +1005,8 @@ def world_factory(kind):
         """purely literal inputs (no variables, functions or suffixes) handed to graders whose options give the same text
         different meanings: negative powers, infinities, array dimension, shape-error handling"""
         lit = ['[[2,0],[0,2]]^-1', '[[2,0],[0,2]]^-1*[1,1]', '[[0.5,0],[0,0.5]]', '[[1,2],[3,4]]*[1,1]', '[1,2]+[1,2,3]',
-               '[1,2]*[3,4]', '10^400', '1/0', '2^-1', '[[1,2],[3,4]]^2', '[3,7]', '7', '0', '[[1,2],[3,4]]^-1*[[1,2],[3,4]]']
+               '[1,2]*[3,4]', '10^400', '1/0', '2^-1', '[[1,2],[3,4]]^2', '[3,7]', '7', '0', '[[1,2],[3,4]]^-1*[[1,2],[3,4]]',
+               '[3,7,1]', '[4,6]']
         graders = {
             'np_off': MatrixGrader(answers='[[0.5,0],[0,0.5]]', negative_powers=False, max_array_dim=2),
             'np_on': MatrixGrader(answers='[[0.5,0],[0,0.5]]', max_array_dim=2),
@@ -1010,6 +1015,12 @@ def world_factory(kind):
             'dim2': MatrixGrader(answers='[3,7]', max_array_dim=2),
             'shape_q': MatrixGrader(answers='[4,6]', shape_errors=False, max_array_dim=2),
             'shape_m': MatrixGrader(answers='[4,6]', max_array_dim=2, answer_shape_mismatch={'is_raised': False, 'msg_detail': 'shape'}),
+            # suppressed matrix errors x wrong_msg ('' / two different texts)
+            'sup_0': MatrixGrader(answers='[4,6]', max_array_dim=2, suppress_matrix_messages=True),
+            'sup_a': MatrixGrader(answers='[4,6]', max_array_dim=2, suppress_matrix_messages=True, wrong_msg='first text'),
+            'sup_b': MatrixGrader(answers='[4,6]', max_array_dim=2, suppress_matrix_messages=True, wrong_msg='second text',
+                                  negative_powers=False),
+            'msg_c': MatrixGrader(answers='[4,6]', max_array_dim=2, shape_errors=False, wrong_msg='third text'),
             'inf_on': FormulaGrader(answers='infty', allow_inf=True),
             'inf_off': FormulaGrader(answers='7'),
             'num': NumericalGrader(answers='0.5'),
@@ -1279,6 +1290,8 @@ def mixed_violation(kind, calls):
 
 
 MIXED_CORPUS = [
+    ('literals', [('sup_a', None, '[1,2]+[1,2,3]'), ('sup_b', None, '[1,2]+[1,2,3]')]),
+    ('literals', [('sup_b', None, '[3,7,1]'), ('sup_0', None, '[3,7,1]')]),
     ('options', [('n_ivar', None, '6.283185307'), ('n_ivar', None, '6.283185307')]),
     ('options', [('sl_ivar', None, '6.283185307,3.141592654')]),
     ('hostile', [('h_f', None, 'y+w*' + '(' * 120 + 'z' + ')' * 120), ('h_n', None, '1')]),
